@@ -13,20 +13,26 @@ from harness.core import sp
 from harness.core.trees import Universe
 
 PID = "C15"
-RULE = ("a case is a tree of dataclasses (depth <= 3, 1-5 fields each) over the intersection of the command-line and the "
-        "serialization grammar {int,float,str,bool,Enum,Path,Literal,List[T],Tuple[T..],Tuple[T,...],Optional of these, "
-        "nested dataclass, Optional[dataclass]} — about a third of the root classes have a field (leaf, or nested member whose field "
-        "names repeat the outer class's) NAMED like the destination (`config`, a custom dest=) — with random definition defaults (missing / value / default_factory "
-        "instance) x a type-correct instance x (boundaries: 0, '', 'None', 'true', 10^30, inf, empty containers, None in "
-        "Optionals, enum names equal to other members' values) x 4 formats x {config_path=, --config_path} x {parse(), "
-        "ArgumentParser with a dest-keyed file}; the file is written by the real save() and the real parse of an empty "
-        "command line must return x. A second stream mutates the file (dropped / null / unknown keys, scalars for "
-        "classes, wrong layout, ill-typed strings) for the correspondence only. Non-trivial = >= 2 leaves and a "
+RULE = ("a case is a tree of dataclasses (depth <= 4, 0-5 fields each, incl. classes without fields) over the intersection of the "
+        "command-line and the serialization grammar {int,float,str,bool,Enum (plain, str-mixin, IntEnum),Path,Literal (incl. "
+        "values with colliding str()),Union of primitives,List[T],Tuple[T..] (incl. Tuple[()]),Tuple[T,...],Optional of these, "
+        "nested dataclass, Optional[dataclass]}; about a third of the root classes have a field (leaf, or nested member whose "
+        "field names repeat the outer class's) NAMED like the destination (`config`, a custom dest=); definition defaults are "
+        "missing / value / None without Optional annotation (`a: int = None`) / default_factory instance; x is a type-correct "
+        "instance (boundaries: 0, '', 'None', 'true', 10^30, inf, empty containers, None in Optionals, enum names equal to "
+        "other members' values, multi-line and yaml-special strings; nan is excluded: nan != nan) x 4 formats x "
+        "{config_path=, --config_path} x {parse(), ArgumentParser with a dest-keyed file}; the file is written by the real "
+        "save() and the real parse of an empty command line must return x. Every second base is built to be fileSafe "
+        "(stratum `safe`, tag domain:filesafe: deeper trees, no finding applies; a failure there is never attributed to an "
+        "open finding), and op cl.filesafe asserts on one real loop per base that the theorem's predicate fileSafe(spec, x) "
+        "is true exactly when the real result equals x. A further stream mutates the file (dropped / null / unknown keys, "
+        "scalars for classes, wrong layout, ill-typed strings) for the correspondence only. Non-trivial = >= 2 leaves and a "
         "container / enum / path / optional / nested value; distinct by canonical JSON.")
 ASSUMPTIONS = ["json / yaml (PyYAML safe_load) / pickle read back the dict of primitives they were given (exercised on every case: "
-               "the file is really written and read)",
+               "the file is really written and read, and its content is sniffed to be of the format its extension names)",
                "dataclass construction and equality of the stdlib; pathlib.Path(str(p)) == p",
-               "float conversion is a table parameter of the model (only used for ill-typed string values)"]
+               "float conversion is a table parameter of the model (used for ill-typed string values and str members of Unions)",
+               "float('nan') is outside the property (x != x)"]
 TRUSTED = ["stdlib argparse: only its empty-command-line behaviour is used (defaults stored, required check, string defaults "
            "converted by type=), modelled in ConfigLoop.emptyArgvValue"]
 EXHAUSTIVE = {"quick": False, "thorough": False}
@@ -34,21 +40,27 @@ THOROUGH_ROUNDS = 3   # thorough tier: this many generator passes with derived P
 MANIFEST = {
     "text": ("Proof (partial): Lean model of to_dict/encode on the command-line grammar, of set_defaults(config_path) for both "
              "file layouts, of DataclassWrapper.set_default, of the FieldWrapper default cascade (a null is an absent key), of "
-             "the empty-argv argparse step (string defaults converted by type=) and of postprocess / bottom-up instantiation "
-             "incl. Optional[dataclass]. Theorem c15_loop: for every class tree and every conforming instance x whose leaves "
-             "are FileSafe, parse(config = save x) = x for parse() and ArgumentParser layouts (induction over the class tree; "
-             "one lemma per type constructor). The full statement is refuted by three witnesses (container items needing "
-             "conversion stay str; None saved for an Optional leaf whose effective default is not None comes back as that "
-             "default; None saved for an Optional[dataclass] with a default_factory comes back as the factory instance), all "
-             "recorded as open findings and excluded by the decidable predicate fileSafe. Further theorems: the exclusion for "
-             "None classes follows from well-typed defaults (quietNone_of_defaults); the per-action empty-argv shortcut equals "
-             "the argparse engine model (emptyArgv_engine_*); both file layouts give the same defaults for every file. The model is tied to the code by "
-             "cl.loop (16 format/route/front-end combinations per instance), cl.parse_file (mutated files) and cl.encode "
-             "(to_dict); the property itself is evaluated on every real loop."),
+             "get_arg_options with definition default and effective default told apart (`a: int = None`), of the empty-argv "
+             "argparse step (string defaults converted by type=) and of postprocess / bottom-up instantiation incl. "
+             "Optional[dataclass]. Theorem c15_loop: for every class tree and every conforming instance x that is fileSafe, "
+             "parse(config = save x) = x for the parse() and the ArgumentParser file layout (induction over the class tree; one "
+             "lemma per type constructor incl. Union and Literal); c15_loop_syntactic replaces the one semantic clause of fileSafe "
+             "by a syntactic condition on the class's defaults, c15_loop_decidable takes all hypotheses in executable form. The "
+             "full statement is refuted by five witnesses (container items needing conversion stay str; None saved for an "
+             "Optional leaf whose effective default is not None comes back as that default; None saved for an "
+             "Optional[dataclass] with a default_factory comes back as the factory instance; a Literal str value shadowed by a "
+             "later value of the same str(); a str member of a Union re-parsed by an earlier member), all open findings, all "
+             "excluded by the decidable predicate fileSafe; limits of the model are the separate predicate inModel. The four "
+             "file formats and the two routes (config_path= / --config_path) are NOT in the theorem: they are sampled (all 16 "
+             "combinations of every generated instance are run on the real code). The model is tied to the code by cl.loop, "
+             "cl.parse_file (mutated files), cl.encode (to_dict) and cl.filesafe (fileSafe(spec, x) <=> the real loop returns x); "
+             "the property itself is evaluated on every real loop."),
     "note": ("Trusted: Lean kernel + standard axioms; harness; json/yaml/pickle round trip of primitive trees. Modelled not "
-             "verified: parsing.py:385-438,794-991,1135-1161, dataclass_wrapper.py:256-315, field_wrapper.py:231-533,711-794, "
-             "serializable.py:616-637,707-774, encoding.py. Outside the model: Union fields, dict/set fields, subgroups, reused "
-             "fields, several config files (C06), _type_ keys."),
+             "verified: parsing.py:385-438,794-991,1135-1167, dataclass_wrapper.py:256-315, field_wrapper.py:231-533,711-794,891, "
+             "serializable.py:616-637,707-774, encoding.py. Outside the model (predicate inModel): Any, Union container items, "
+             "Unions with non-primitive members, Optional[Literal], Enum-valued Literals, paths needing normalisation; not part of "
+             "this property: dict/set fields, subgroups, reused fields, several config files (C06), _type_ keys. The engine "
+             "shortcut is proved equal to the argparse engine model for one store action only (emptyArgv_engine_*)."),
     "technique": "Lean 4 round-trip theorem by induction over the class tree + differential check on real save/parse loops",
     "design_ref": "DESIGN.md section 5, C15",
 }
@@ -109,14 +121,46 @@ def default_instance(classes, name):
     return {"t": "inst", "cls": name, "v": out}
 
 
-def gen_leaf_ty(rng):
-    for _ in range(50):
-        t = G.gen_ty(rng, p_opt=0.3, p_union=0.0)
+SAFE_BASES = ["int", "float", "str", "bool"]
+SPECIAL_STRS = ["a\nb: c", "- x", "key: value", "# c", " lead", "trail ", "{a: 1}", "~", "null", "yes", "1e3", "0x10",
+                "2024-01-01", "a\tb", "'", '"', "[x", "!tag", "&a", "*a", "%", "@", "|", ">", "line1\nline2\n"]
+
+
+def literal_collides(t):
+    names = [_lit_name(v) for v in t["vals"]]
+    return len(set(names)) != len(names)
+
+
+def gen_leaf_ty(rng, safe=False):
+    """a leaf annotation of the intersection grammar.  safe=True: only annotations all of whose values round-trip today
+    (containers of int/float/str/bool, no Union, no Literal with colliding names) — the fileSafe-by-construction stratum"""
+    for _ in range(200):
+        if rng.random() < 0.02:
+            return {"k": "tuple", "items": []}  # Tuple[()]
+        t = G.gen_ty(rng, p_opt=0.3, p_union=0.0 if safe else 0.06)
         inner = t["inner"] if t["k"] == "opt" else t
-        if inner["k"] == "union":
+        if inner["k"] == "literal" and safe and literal_collides(inner):
             continue
+        if safe:
+            items = [inner.get("item")] if inner["k"] in ("list", "vtuple") else inner.get("items", []) if inner["k"] == "tuple" else []
+            if any(it["k"] not in SAFE_BASES for it in items):
+                continue
         return t
     return {"k": "int"}
+
+
+def gen_leaf_default(rng, t, safe):
+    r = rng.random()
+    if r < 0.25:
+        return {"kind": "missing"}
+    if t["k"] == "opt" and (safe or r < 0.6):
+        return {"kind": "value", "v": {"t": "none"}}     # safe stratum: an Optional leaf's default is None (or missing)
+    if t["k"] not in ("opt", "literal") and r > 0.95 and not (t["k"] == "enum" and t["cls"] == "Level"):
+        # `a: int = None`: a None default without an Optional annotation.  (Not for the str-mixin Enum `Level`: there the
+        # real code raises KeyError(<Level.X>) for ANY value, command line or file — postprocess() sees a member that is also
+        # a str and looks it up by name again; reported as a finding candidate, it is not specific to this property.)
+        return {"kind": "value", "v": {"t": "none"}}
+    return {"kind": "value", "v": G.gen_value(rng, t)}
 
 
 def gen_instance(rng, classes, name, p_none=0.25):
@@ -132,47 +176,59 @@ def gen_instance(rng, classes, name, p_none=0.25):
         else:
             r = rng.random()
             d = f["default"]
-            if r < 0.15 and d["kind"] != "missing":
+            if r < 0.15 and d["kind"] != "missing" and (t["k"] == "opt" or d["v"]["t"] != "none"):
                 out.append([f["name"], copy.deepcopy(d["v"])])  # the value equals the definition default
             else:
-                out.append([f["name"], G.gen_value(rng, t)])
+                v = G.gen_value(rng, t)
+                v = spice(rng, t, v)
+                out.append([f["name"], v])
     return {"t": "inst", "cls": name, "v": out}
 
 
-def gen_class(rng, classes, counter, depth):
+def spice(rng, t, v):
+    """now and then a multi-line / yaml-special string where a str is held (str, Optional[str], str items)"""
+    inner = t["inner"] if t["k"] == "opt" else t
+    if inner["k"] == "str" and v["t"] == "str" and rng.random() < 0.2:
+        return {"t": "str", "v": rng.choice(SPECIAL_STRS)}
+    if inner["k"] in ("list", "vtuple") and inner["item"]["k"] == "str" and v["t"] in ("list", "tuple") and rng.random() < 0.2:
+        return {"t": v["t"], "v": [{"t": "str", "v": rng.choice(SPECIAL_STRS)} if rng.random() < 0.5 else x for x in v["v"]]}
+    return v
+
+
+def gen_class(rng, classes, counter, depth, safe=False, root=False):
     """appends the class (and the classes it needs) to `classes`; returns its name"""
     n_fields = rng.choice([1, 2, 2, 3, 3, 4, 5])
+    if not root and rng.random() < 0.04:
+        n_fields = 0  # a class without leaf fields (possibly without any field)
     names = rng.sample(FIELD_NAMES, n_fields)
     fields = []
     for nm in names:
-        t = gen_leaf_ty(rng)
-        r = rng.random()
-        if r < 0.25:
-            d = {"kind": "missing"}
-        elif t["k"] == "opt" and r < 0.6:
-            d = {"kind": "value", "v": {"t": "none"}}
-        else:
-            d = {"kind": "value", "v": G.gen_value(rng, t)}
-        fields.append({"name": nm, "ty": t, "default": d})
+        t = gen_leaf_ty(rng, safe)
+        fields.append({"name": nm, "ty": t, "default": gen_leaf_default(rng, t, safe)})
     n_sub = 0
     if depth > 0:
         n_sub = rng.choice([0, 1, 1, 2]) if depth >= 2 else rng.choice([0, 0, 1])
+        if safe:
+            n_sub = max(n_sub, 1)
     for nm in rng.sample(SUB_NAMES, n_sub):
         existing = [c["name"] for c in classes]
         if existing and rng.random() < 0.2:
             sub = rng.choice(existing)
         else:
-            sub = gen_class(rng, classes, counter, depth - 1)
+            sub = gen_class(rng, classes, counter, depth - 1, safe)
         optional = rng.random() < 0.4
         t = {"k": "opt", "inner": {"k": "dc", "cls": sub}} if optional else {"k": "dc", "cls": sub}
         dflt = default_instance(classes, sub)
         r = rng.random()
-        if optional and r < 0.45:
-            d = {"kind": "value", "v": {"t": "none"}}
+        if optional and (safe or r < 0.45):
+            # safe stratum: an Optional class member has no default instance (None or nothing)
+            d = {"kind": "value", "v": {"t": "none"}} if r < 0.7 else {"kind": "missing"}
         elif r < 0.25:
             d = {"kind": "missing"}
-        elif r < 0.6 and dflt is not None:
+        elif (safe or r < 0.6) and dflt is not None:
             d = {"kind": "factory", "v": dflt}
+        elif safe:
+            d = {"kind": "missing"}
         else:
             d = {"kind": "factory", "v": gen_instance(rng, classes, sub)}  # a factory returning non-default values
         fields.append({"name": nm, "ty": t, "default": d})
@@ -187,7 +243,7 @@ def gen_class(rng, classes, counter, depth):
 OTHER_DESTS = ["cfg", "run_1", "options"]
 
 
-def add_dest_named_field(rng, classes, root, dest):
+def add_dest_named_field(rng, classes, root, dest, safe=False):
     """give the root class a field whose NAME is the destination the instance is parsed into: a leaf, or a nested dataclass
     member whose own field names are (a subset of) the outer class's leaf names — so that its dict could be mistaken for
     the defaults of the whole class if the file's top-level `dest` key were read as a dest-keyed layout"""
@@ -200,7 +256,12 @@ def add_dest_named_field(rng, classes, root, dest):
         sub_fields = []
         for f in picked:
             d = f["default"]
-            nd = {"kind": "value", "v": G.gen_value(rng, f["ty"])} if (d["kind"] == "missing" or rng.random() < 0.5) else copy.deepcopy(d)
+            if safe and f["ty"]["k"] == "opt":
+                nd = {"kind": "value", "v": {"t": "none"}}
+            elif d["kind"] == "missing" or rng.random() < 0.5:
+                nd = {"kind": "value", "v": G.gen_value(rng, f["ty"])}
+            else:
+                nd = copy.deepcopy(d)
             sub_fields.append({"name": f["name"], "ty": copy.deepcopy(f["ty"]), "default": nd})
         name = f"K{len(classes) + 1}o"
         classes.insert(len(classes) - 1, {"name": name, "fields": sub_fields})  # before the root (dependency order)
@@ -209,27 +270,21 @@ def add_dest_named_field(rng, classes, root, dest):
         r = rng.random()
         if r < 0.3:
             d = {"kind": "missing"}
-        elif optional and r < 0.5:
+        elif optional and (safe or r < 0.5):
             d = {"kind": "value", "v": {"t": "none"}}
         else:
             d = {"kind": "factory", "v": default_instance(classes, name)}
         rc["fields"].append({"name": dest, "ty": t, "default": d})
     else:
-        t = gen_leaf_ty(rng)
-        r = rng.random()
-        if r < 0.3:
-            d = {"kind": "missing"}
-        elif t["k"] == "opt" and r < 0.6:
-            d = {"kind": "value", "v": {"t": "none"}}
-        else:
-            d = {"kind": "value", "v": G.gen_value(rng, t)}
-        rc["fields"].append({"name": dest, "ty": t, "default": d})
+        t = gen_leaf_ty(rng, safe)
+        rc["fields"].append({"name": dest, "ty": t, "default": gen_leaf_default(rng, t, safe)})
     rc["fields"].sort(key=lambda f: f["default"]["kind"] != "missing")
 
 
-def gen_base(rng):
+def gen_base(rng, safe=False):
+    """safe=True: the fileSafe-by-construction stratum (deeper trees, every leaf and every None position round-trips today)"""
     classes: list[dict] = []
-    root = gen_class(rng, classes, [0], rng.choice([0, 1, 1, 2, 2, 3]))
+    root = gen_class(rng, classes, [0], rng.choice([1, 2, 2, 3, 3]) if safe else rng.choice([0, 1, 1, 2, 2, 3]), safe, root=True)
     # the destination: parse()'s default `config`, a custom dest=, or the name of one of the root's own fields
     r = rng.random()
     names = [f["name"] for f in class_of(classes, root)["fields"]]
@@ -240,7 +295,7 @@ def gen_base(rng):
     else:
         dest = rng.choice(names)
     if rng.random() < 0.35:
-        add_dest_named_field(rng, classes, root, dest)
+        add_dest_named_field(rng, classes, root, dest, safe)
     x = gen_instance(rng, classes, root)
     return classes, root, x, dest
 
@@ -314,15 +369,18 @@ def mutate_file(rng, classes, root, entries):
 
 def gen(rng, tier):
     workdir()
-    n = 300 if tier == "quick" else 5000
+    n = 300 if tier == "quick" else 4700
     for i in range(n):
-        classes, root, x, dest = gen_base(rng)
-        base = {"classes": classes, "root": root, "x": x, "dest": dest}
+        safe = i % 2 == 1
+        classes, root, x, dest = gen_base(rng, safe)
+        base = {"classes": classes, "root": root, "x": x, "dest": dest, "stratum": "safe" if safe else "any"}
         for fmt in FMTS:
             for route in ROUTES:
                 for api in APIS:
                     yield {"op": "cl.loop", "case": dict(base, fmt=fmt, route=route, api=api)}
         yield {"op": "cl.encode", "case": {"classes": classes, "root": root, "x": x}}
+        # the theorem's exclusion predicate against the real outcome: fileSafe(spec, x) <=> the real loop returns x
+        yield {"op": "cl.filesafe", "case": dict(base, fmt=rng.choice(FMTS), route=rng.choice(ROUTES), api=rng.choice(APIS))}
         # mutated files (correspondence of the default machinery on files save() would not write)
         valid = py_encode(x)["v"]
         for _ in range(3):
@@ -418,6 +476,7 @@ def run_config(u, cls, c, payload):
             save(payload, path)
         except BaseException as e:  # noqa: BLE001
             return {"o": "raise", "exc": type(e).__name__, "stage": "save", "msg": str(e)[:200]}
+        seen = sniff_format(path)
         sp.reset_globals()
         # a parser that has a config path can be parsed only once (DESIGN D6): a fresh parser per parse
         if c["api"] == "parse":
@@ -443,8 +502,33 @@ def run_config(u, cls, c, payload):
         except OSError:
             pass
     if r["o"] == "ok":
-        return {"o": "ok", "inst": sp.cv(inst)}
-    return {k: v for k, v in r.items() if k != "value"}
+        return {"o": "ok", "inst": sp.cv(inst), "format_seen": seen}
+    return dict({k: v for k, v in r.items() if k != "value"}, format_seen=seen)
+
+
+def sniff_format(path):
+    """what the written file looks like, independently of its extension: pickle protocol header, JSON text (json.dump writes
+    no trailing newline), otherwise YAML (yaml.dump always ends with a newline)"""
+    import json
+
+    with open(path, "rb") as f:
+        data = f.read()
+    if data[:1] == b"\x80":
+        return "pickle"
+    try:
+        text = data.decode("utf-8")
+    except UnicodeDecodeError:
+        return "binary"
+    if not text.endswith("\n"):
+        try:
+            json.loads(text)
+            return "json"
+        except ValueError:
+            return "text"
+    return "yaml"
+
+
+FORMAT_OF_EXT = {".json": "json", ".yaml": "yaml", ".yml": "yaml", ".pkl": "pickle"}
 
 
 def impl(case):
@@ -459,14 +543,19 @@ def impl(case):
         if r["o"] != "ok":
             return {k: v for k, v in r.items() if k != "value"}
         return {"file": tree_of_raw(r["value"])}
-    if case["op"] == "cl.loop":
+    if case["op"] in ("cl.loop", "cl.filesafe"):
         x = u.val(c["x"])
         assert sp.cv(x) == c["x"], "the generated instance is not what the case says"
         if c["api"] == "parse":
             payload = x  # save(x, path): to_dict is applied by save itself
         else:
             payload = {c["dest"]: to_dict(x)}
-        return run_config(u, cls, c, payload)
+        obs = run_config(u, cls, c, payload)
+        if case["op"] == "cl.filesafe":
+            # did the real loop reproduce x?  (the property's own statement, evaluated here because it IS the observation)
+            fails = loop_failures(c, obs)
+            return {"filesafe": not fails, "n_fails": len(fails), "first": (fails[0].get("detail", "")[:300] if fails else "")}
+        return obs
     # cl.parse_file
     return run_config(u, cls, c, {n: raw_py(e) for n, e in c["file"]})
 
@@ -530,7 +619,7 @@ def model_case(case, obs):
         return {"x": inst_tree(c["classes"], c["root"], c["x"])}
     spec = spec_tree(c["classes"], c["root"])
     m = {"api": c["api"], "dest": c["dest"], "cls": c["root"], "spec": spec}
-    if case["op"] == "cl.loop":
+    if case["op"] in ("cl.loop", "cl.filesafe"):
         m["x"] = inst_tree(c["classes"], c["root"], c["x"])
         m["floats"] = G.floats_table(strings_in([c["x"], c["classes"]], []))
     else:
@@ -542,6 +631,8 @@ def model_case(case, obs):
 def project(case, obs):
     if case["op"] == "cl.encode":
         return obs if "file" in obs else {"o": obs["o"], "exc": obs.get("exc")}
+    if case["op"] == "cl.filesafe":
+        return {"filesafe": obs["filesafe"]}
     if obs["o"] == "ok":
         return {"o": "ok", "inst": obs["inst"]}
     if obs["o"] == "exit":
@@ -617,6 +708,20 @@ def compare(classes, cls, exp, got, path, fails, root):
                           "detail": f"{'.'.join(p)}: saved {e}, received {g}"})
 
 
+def loop_failures(c, obs):
+    """the property on one real loop: the file was accepted, the result equals x leaf by leaf, every leaf has its declared
+    type, and the file really was of the format its extension names"""
+    fails = []
+    if obs.get("format_seen") not in (None, FORMAT_OF_EXT[c["fmt"]]):
+        fails.append({"clause": "format", "detail": f"save() to a {c['fmt']} file wrote {obs.get('format_seen')} content"})
+    if obs["o"] != "ok":
+        fails.append({"clause": "accepted", "detail": f"the saved file was not accepted as config file ({c['fmt']}, {c['route']}, "
+                                                      f"{c['api']}): {obs}"})
+        return fails
+    compare(c["classes"], c["root"], c["x"], obs["inst"], [], fails, c["root"])
+    return fails
+
+
 def oracle(case, obs):
     c = case["case"]
     fails = []
@@ -624,13 +729,17 @@ def oracle(case, obs):
         if "file" not in obs:
             fails.append({"clause": "save", "detail": f"to_dict failed: {obs}"})
         return fails
+    if case["op"] == "cl.filesafe":
+        # by construction the `safe` stratum lies inside the theorem's domain: the real loop must reproduce x
+        if c.get("stratum") == "safe" and not obs["filesafe"]:
+            fails.append({"clause": "safe-stratum", "stratum": "safe", "detail": "an instance built to be fileSafe did not round-trip: " + obs["first"]})
+        return fails
     if case["op"] != "cl.loop":
         return fails  # mutated files: the property says nothing about files save() did not write
-    if obs["o"] != "ok":
-        fails.append({"clause": "accepted", "detail": f"the saved file was not accepted as config file ({c['fmt']}, {c['route']}, "
-                                                      f"{c['api']}): {obs}"})
-        return fails
-    compare(c["classes"], c["root"], c["x"], obs["inst"], [], fails, c["root"])
+    fails = loop_failures(c, obs)
+    if c.get("stratum") == "safe":
+        for f in fails:
+            f["stratum"] = "safe"   # never attributed to an open finding (see FINDINGS)
     return fails
 
 
@@ -672,7 +781,15 @@ def sig_none_optional(case, obs, fail):
     if fail["ty"]["k"] != "opt" or fail["expected"] != {"t": "none"}:
         return False
     g = fail["got"]
-    return g != {"t": "none"} and any(g == cand for cand in fail.get("candidates", []))
+    if g == {"t": "none"}:
+        return False
+    for cand in fail.get("candidates", []):
+        if g == cand:
+            return True
+        # … or that default after the Union's type= re-parsed it (it is a string default too: C15-union-str-reparsed)
+        if cand.get("t") == "str" and _union_reparsed_to(fail["ty"], cand, g):
+            return True
+    return False
 
 
 def sig_none_class(case, obs, fail):
@@ -702,29 +819,93 @@ def _collides_to(ty, e, g):
     return len(same) >= 2 and same[-1] == g and vals.index(g) > vals.index(e)
 
 
-def _inst_eq_mod_collision(classes, cls, exp, got):
-    """(equal up to Literal name collisions at leaves, number of collisions)"""
+def _union_reparsed_to(ty, e, g):
+    """g is what an EARLIER member of the Union `ty` makes of the str value e"""
+    t = ty["inner"] if ty.get("k") == "opt" else ty
+    if t.get("k") != "union" or e.get("t") != "str" or g.get("t") not in ("int", "float", "bool"):
+        return False
+    alts = [a["k"] for a in t["alts"]]
+    if "str" not in alts or g["t"] not in alts[: alts.index("str")]:
+        return False
+    txt = e["v"]
+    try:
+        if g["t"] == "int":
+            return str(int(txt)) == g["v"]
+        if g["t"] == "float":
+            return repr(float(txt)) == g["v"]
+        from simple_parsing.utils import str2bool
+
+        return str2bool(txt) is g["v"]
+    except Exception:  # noqa: BLE001
+        return False
+
+
+def _inst_eq_mod(classes, cls, exp, got):
+    """(equal up to Literal name collisions / Union re-parses at leaves, #collisions, #re-parses)"""
     if got.get("t") != "inst" or exp.get("t") != "inst" or got.get("cls") != cls or exp.get("cls") != cls:
-        return False, 0
+        return False, 0, 0
     fields = {f["name"]: f for f in class_of(classes, cls)["fields"]}
     gd = dict((n, v) for n, v in got["v"])
-    n_coll = 0
+    n_lit = n_un = 0
     for n, e in exp["v"]:
         f, g = fields[n], gd.get(n)
         if g == e:
             continue
         if g is None:
-            return False, 0
+            return False, 0, 0
         if is_dc(f["ty"]):
-            ok, k = _inst_eq_mod_collision(classes, dc_name(f["ty"]), e, g)
+            ok, a, b = _inst_eq_mod(classes, dc_name(f["ty"]), e, g)
             if not ok:
-                return False, 0
-            n_coll += k
+                return False, 0, 0
+            n_lit += a
+            n_un += b
         elif _collides_to(f["ty"], e, g):
-            n_coll += 1
+            n_lit += 1
+        elif _union_reparsed_to(f["ty"], e, g):
+            n_un += 1
         else:
-            return False, 0
-    return True, n_coll
+            return False, 0, 0
+    return True, n_lit, n_un
+
+
+def _own_leaves_are_defaults_mod(classes, g):
+    """the own leaf fields of instance g are the class's definition defaults (None when there is none) up to Literal
+    collisions / Union re-parses: (ok, #collisions, #re-parses)"""
+    gd = dict((n, v) for n, v in g["v"])
+    n_lit = n_un = 0
+    for f in class_of(classes, g["cls"])["fields"]:
+        if is_dc(f["ty"]):
+            continue
+        e = f["default"]["v"] if f["default"]["kind"] != "missing" else {"t": "none"}
+        got = gd.get(f["name"], {})
+        if got == e:
+            continue
+        if _collides_to(f["ty"], e, got):
+            n_lit += 1
+        elif _union_reparsed_to(f["ty"], e, got):
+            n_un += 1
+        else:
+            return False, 0, 0
+    return True, n_lit, n_un
+
+
+def _none_class_composite(case, fail):
+    """for a failure "Optional[class] member: saved None, received an instance": (via_factory, via_unequal_default, #lit, #union)
+    via_factory: the instance is a definition default instance up to collisions / re-parses inside it;
+    via_unequal_default: its own leaves are the class's defaults up to >= 1 collision / re-parse (so `arg != default`)"""
+    c = case["case"]
+    g = fail["got"]
+    if fail.get("kind") != "optional-class" or fail.get("expected") != {"t": "none"} or g.get("t") != "inst":
+        return None
+    for cand in fail.get("candidates", []):
+        if cand.get("t") == "inst":
+            ok, a, b = _inst_eq_mod(c["classes"], g["cls"], cand, g)
+            if ok:
+                return ("factory", a, b)
+    ok, a, b = _own_leaves_are_defaults_mod(c["classes"], g)
+    if ok and a + b >= 1:
+        return ("unequal-default", a, b)
+    return None
 
 
 def sig_literal_collision(case, obs, fail):
@@ -736,38 +917,36 @@ def sig_literal_collision(case, obs, fail):
     if fail.get("clause") != "equal":
         return False
     if fail.get("kind") == "optional-class":
-        c = case["case"]
-        g = fail["got"]
-        if fail["expected"] != {"t": "none"} or g.get("t") != "inst":
-            return False
-        for cand in fail.get("candidates", []):
-            if cand.get("t") == "inst":
-                ok, k = _inst_eq_mod_collision(c["classes"], g["cls"], cand, g)
-                if ok and k >= 1:
-                    return True
-        # (c): own leaf fields = definition defaults (None when there is none) up to >= 1 collision
-        gd = dict((n, v) for n, v in g["v"])
-        n_coll = 0
-        for f in class_of(c["classes"], g["cls"])["fields"]:
-            if is_dc(f["ty"]):
-                continue
-            e = f["default"]["v"] if f["default"]["kind"] != "missing" else {"t": "none"}
-            if gd.get(f["name"]) == e:
-                continue
-            if _collides_to(f["ty"], e, gd.get(f["name"], {})):
-                n_coll += 1
-            else:
-                return False
-        return n_coll >= 1
+        r = _none_class_composite(case, fail)
+        return r is not None and r[1] >= 1
     return "ty" in fail and _collides_to(fail["ty"], fail["expected"], fail["got"])
 
 
+def sig_union_reparsed(case, obs, fail):
+    """the leaf is a Union (or Optional[Union]) holding a str; the value received is what an EARLIER member of the Union
+    makes of that string (int(s) / float(s) / str2bool(s)) — or the same re-parse hits a definition default of a class x holds
+    None for (see sig_literal_collision (b), (c))"""
+    if fail.get("kind") == "optional-class":
+        r = _none_class_composite(case, fail)
+        return r is not None and r[2] >= 1
+    if fail.get("clause") not in ("equal", "type") or "ty" not in fail:
+        return False
+    return _union_reparsed_to(fail["ty"], fail["expected"], fail["got"])
+
+
+def _not_safe_stratum(pred):
+    """a failure inside the fileSafe-by-construction stratum is never a known finding"""
+    return lambda case, obs, fail: fail.get("stratum") != "safe" and pred(case, obs, fail)
+
+
 FINDINGS = {
+    "C15-union-str-reparsed": sig_union_reparsed,
     "C15-literal-name-collision": sig_literal_collision,
     "C15-D17a-container-items-stay-str": sig_container_items,
     "C15-D17b-none-is-absent": sig_none_optional,
     "C15-none-class-is-absent": sig_none_class,
 }
+FINDINGS = {k: _not_safe_stratum(v) for k, v in FINDINGS.items()}
 
 
 # -----------------------------------------------------------------------------------------------
@@ -800,13 +979,19 @@ def tags(case, obs):
     t = [f"op:{case['op']}"]
     if case["op"] == "cl.encode":
         return t
+    if case["op"] == "cl.filesafe":
+        return t + [f"filesafe:{obs['filesafe']}", "domain:" + ("filesafe" if c.get("stratum") == "safe" else "any"),
+                    f"filesafe-depth:{depth_of(c['x'])}:{obs['filesafe']}"]
     root_names = [f["name"] for f in class_of(c["classes"], c["root"])["fields"]]
     t.append("dest:" + ("config" if c["dest"] == DEST else "custom") + ("+is-field-name" if c["dest"] in root_names else ""))
     t += [f"api:{c['api']}", f"fmt:{c['fmt']}", f"route:{c['route']}", "out:" + (obs["o"] + (":" + obs.get("exc", "") if obs["o"] == "raise" else ""))]
     if case["op"] == "cl.parse_file":
         t.append("mut:" + c["mutation"])
         return t
-    t += [f"depth:{depth_of(c['x'])}", f"leaves:{min(len(leaves(c['x'], [])), 12)}"]
+    t += [f"depth:{depth_of(c['x'])}", f"leaves:{min(len(leaves(c['x'], [])), 12)}",
+          "domain:" + ("filesafe" if c.get("stratum") == "safe" else "any")]
+    if c.get("stratum") == "safe":
+        t.append(f"domain:filesafe+depth:{depth_of(c['x'])}")
     for cl in c["classes"]:
         for f in cl["fields"]:
             ty = f["ty"]
